@@ -79,6 +79,13 @@ def make_jobs(S, names, pub, tier, rng, nrandom, full_names):
                         continue
                     add([S.plan(k0, p)], {"kind": "transition-%s-%s" % (oname, pos), "sig": S.path_sig(k0, p) + "#%d.%d=%s" % (ei, ij, oname)},
                         tplan=[None] * n + [v])
+        # ... and all transitions of a path at once (all converted, all gammas, alternating): what a block that looks at two
+        # transitions together (angular correlation, remembered particle indices) distinguishes
+        for (ei, p) in wit:
+            for pat, tp in S.joint_outcome_tplans(k0, p).items():
+                if not full and pat not in ("all-K", "alt-K-gamma", "alt-gamma-K"):
+                    continue
+                add([S.plan(k0, p)], {"kind": "joint-" + pat, "sig": S.path_sig(k0, p) + "#" + pat}, tplan=tp)
         # daughters: every path of each daughter scheme behind a random non-alpha parent path
         for (kd, unless_alpha) in chain[1:]:
             cands = [p for p in (S.all_paths(k0, 200)) if not (unless_alpha and S.first_is_alpha(k0, p))]
@@ -93,6 +100,28 @@ def make_jobs(S, names, pub, tier, rng, nrandom, full_names):
             add([], {"kind": "random", "sig": ""})
         jobs[nm] = lst
     return jobs
+
+
+def trim_trace(path):
+    """drop a torn last line and the last (unfinished) execution of a trace written by a process that died"""
+    if not os.path.exists(path):
+        return
+    data = open(path).read()
+    if not data.endswith("\n"):
+        data = data[:data.rfind("\n") + 1]
+    ls = data.splitlines()
+    k = len(ls)
+    while k > 0 and '"Reset"' not in ls[k - 1]:
+        k -= 1
+    if k > 0:
+        ls = ls[:k - 1]
+    else:
+        # transition traces: Begin .. End blocks
+        k = len(ls)
+        while k > 0 and '"End"' not in ls[k - 1]:
+            k -= 1
+        ls = ls[:k]
+    open(path, "w").write("".join(x + "\n" for x in ls))
 
 
 def run_shard(exe, lines, tracefile):
@@ -168,6 +197,9 @@ def run(tier, replay):
                 ck.violation("cosim-crash:shard", "co-simulation harness died (rc=%s) after %d of %d jobs: %s" % (
                     rc, len(res), len(shards[i]), tail[-800:]),
                     {"job": shards[i][len(res)] if len(res) < len(shards[i]) else None})
+                # the trace files of a shard that died end inside an execution (possibly inside a line): validate what is complete
+                for tf in (os.path.join(wd, "sch%d.ndjson" % i), os.path.join(wd, "sch%d.ndjson.tr" % i)):
+                    trim_trace(tf)
             results += res
     # ---- 3. classify
     cls_count = collections.Counter()
